@@ -5,8 +5,8 @@
 set -u
 id=$1; shift
 checks=${@:-$id}
-out=/tmp/seed/out/$id
-w=/tmp/seed/verify_$id
+root=${SEEDROOT:-/tmp/seed}; out=$root/out/$id
+w=$root/verify_$id
 git -C /repo worktree remove --force $w >/dev/null 2>&1
 git -C /repo worktree add --detach $w HEAD >/dev/null 2>&1 || { echo "worktree failed"; exit 2; }
 ( cd $w && git apply $out/patch.diff ) || { echo "PATCH DOES NOT APPLY"; git -C /repo worktree remove --force $w; exit 2; }
@@ -24,10 +24,10 @@ git -C /repo worktree remove --force $w
 cd /verif
 git -C /repo apply $out/patch.diff || exit 2
 for c in $checks; do
-  ./check $c --tier quick > /tmp/seed/out/$id/check_$c.log 2>&1; rc=$?
-  echo "check $c rc=$rc: $(grep -c VIOLATION /tmp/seed/out/$id/check_$c.log) violation lines"
-  grep "VIOLATION" /tmp/seed/out/$id/check_$c.log | head -3 | cut -c1-200
-  tail -1 /tmp/seed/out/$id/check_$c.log | cut -c1-200
+  ./check $c --tier quick > $out/check_$c.log 2>&1; rc=$?
+  echo "check $c rc=$rc: $(grep -c VIOLATION $out/check_$c.log) violation lines"
+  grep "VIOLATION" $out/check_$c.log | head -3 | cut -c1-200
+  tail -1 $out/check_$c.log | cut -c1-200
 done
 git -C /repo checkout -- .
 git -C /repo status --short | grep -v "^??" && echo "REPO NOT CLEAN"
